@@ -609,8 +609,37 @@ bool load_replay(const std::string& path, Plan& plan, std::string& expected_cls,
    return true;
 }
 
-// Once per process, before its first run.  A probe child goes first: if the warm-up kills it (a broken library), the
-// parent does without, and the runs themselves report what is wrong.
+// The warm-up program in a child of its own: exit status and stderr.
+int warm_up_probe(std::string& err)
+{
+   mkdirs(g_log_dir);
+   const std::string errfile = g_log_dir + "/warmup-" + std::to_string(getpid()) + ".err";
+   std::fflush(stdout);
+   pid_t pid = fork();
+   if (pid < 0) return -1;
+   if (pid == 0) {
+      int nul = open("/dev/null", O_WRONLY);
+      if (nul >= 0) { dup2(nul, 1); close(nul); }
+      int efd = open(errfile.c_str(), O_WRONLY | O_CREAT | O_TRUNC, 0644);
+      if (efd >= 0) { dup2(efd, 2); close(efd); }
+      heap::reset(1, 0);
+      heap::set_owner(heap::process_owner);
+      try { g_warm_up(); } catch (...) { _exit(3); }
+      _exit(0);
+   }
+   int status = 0;
+   waitpid(pid, &status, 0);
+   err = read_file(errfile);
+   unlink(errfile.c_str());
+   return status;
+}
+
+// Once per process, before its first run.  A probe child goes first.  The warm-up is a fixed, legal program (two
+// Lexicons side by side, every factory, printing, destruction); if it kills the probe child twice in the same way, that is
+// a violation in its own right (recorded here, reported by the check with a replay file of its own), and the parent goes
+// on without a warm-up so that the runs report what else is wrong.
+struct WarmUpFailure { bool failed = false; std::string kind, detail; } g_warm_up_failure;
+
 void warm_up_once()
 {
    static bool done = false;
@@ -618,20 +647,14 @@ void warm_up_once()
    // visible to the real-thread layer instead of being performed up front by one thread
    if (done or g_warm_up == nullptr or not heap::available()) return;
    done = true;
-   std::fflush(stdout);
-   pid_t pid = fork();
-   if (pid == 0) {
-      int nul = open("/dev/null", O_WRONLY);
-      if (nul >= 0) { dup2(nul, 1); dup2(nul, 2); close(nul); }
-      heap::reset(1, 0);
-      heap::set_owner(heap::process_owner);
-      try { g_warm_up(); } catch (...) { _exit(3); }
-      _exit(0);
-   }
-   int status = 0;
-   if (pid > 0) waitpid(pid, &status, 0);
-   if (pid < 0 or not (WIFEXITED(status) and WEXITSTATUS(status) == 0)) {
-      std::printf("note: the warm-up run did not complete in a probe child; runs start without it\n");
+   std::string err;
+   int status = warm_up_probe(err);
+   if (status < 0 or not (WIFEXITED(status) and WEXITSTATUS(status) == 0)) {
+      std::string err2;
+      const int status2 = warm_up_probe(err2);
+      const std::string k1 = classify_crash("", status, err), k2 = classify_crash("", status2, err2);
+      std::printf("note: the warm-up run did not complete in a probe child (%s); runs start without it\n", k1.c_str());
+      if (k1 == k2) { g_warm_up_failure.failed = true; g_warm_up_failure.kind = k1; g_warm_up_failure.detail = one_line(err.substr(0, 600)); }
       return;
    }
    heap::reset(1, 0);
@@ -651,6 +674,19 @@ int cmd_replay(const std::string& path, bool verbose)
    std::printf("replaying %s (%zu ops, seed %llu, flavour " SIM_FLAVOUR ")\n", path.c_str(), plan.ops.size(), (unsigned long long) plan.seed);
    for (size_t i = 0; i < plan.ops.size() and i < 200; ++i) std::printf("  op[%zu] %s\n", i, sc->describe(plan.ops[i]).c_str());
    std::string err;
+   if (plan.get("warmup", 0) != 0) {
+      // the replay file of a warm-up failure: the program is the warm-up run itself
+      std::printf("replaying the warm-up program (two Lexicons side by side, every factory once, printing, destruction)\n");
+      if (g_warm_up == nullptr or not heap::available()) { std::printf("NO-VIOLATION digest=0\n"); return 0; }
+      std::string werr;
+      const int status = warm_up_probe(werr);
+      if (status >= 0 and WIFEXITED(status) and WEXITSTATUS(status) == 0) { std::printf("NO-VIOLATION digest=0\n"); return 0; }
+      const std::string got = plan.prop + classify_crash("", status, werr) + "/warm-up";
+      std::printf("violation class: %s\n  %s\n", got.c_str(), one_line(werr.substr(0, 600)).c_str());
+      if (cls.empty() or got == cls) { std::printf("REPRODUCED %s digest=0\n", got.c_str()); return 1; }
+      std::printf("DIFFERENT expected=%s got=%s\n", cls.c_str(), got.c_str());
+      return 3;
+   }
    warm_up_once();
    RunResult r = run_in_child(*sc, plan, 0, verbose, &err);
    if (r.verdict.kind != Verdict::Violation) {
@@ -822,6 +858,38 @@ int cmd_check(const Options& o0, const char* argv0)
          std::printf("  class %s\n    %s\n    minimised %zu -> %zu ops in %d tests\n", want.c_str(), fin.verdict.detail.c_str(), st.from, small.ops.size(), st.tests);
       }
       reported_classes.insert(want);
+   }
+
+   // The warm-up program killed its probe child twice in the same way: a fixed, legal program that the library does not
+   // survive.  Reported with a replay file of its own (replaying it runs the warm-up in a fresh process).
+   if (g_warm_up_failure.failed) {
+      Plan wp;
+      wp.prop = sc.id();
+      wp.seed = 0;
+      wp.set("warmup", 1);
+      Verdict wv = Verdict::fail(std::string(sc.id()) + g_warm_up_failure.kind + "/warm-up",
+                                 "the warm-up program (two Lexicons side by side, every factory once, printing, destruction) does not complete: " + g_warm_up_failure.detail);
+      std::string safe = wv.cls;
+      for (auto& ch : safe) if (not std::isalnum((unsigned char) ch) and ch != '-' and ch != '_') ch = '_';
+      if (safe.size() > 90) safe.resize(90);
+      const std::string path = o.replay_dir + "/" + safe + "-warmup.json";
+      mkdirs(o.replay_dir);
+      write_file(path, replay_json(wp, wv, 0, ""));
+      const int rc = fresh_replay(argv0, path);
+      if (rc != 1) gate_failures.push_back("fresh-process replay of " + path + " exited " + std::to_string(rc) + " (expected 1)");
+      else {
+         std::string abs = path;
+         if (abs[0] != '/') { char cwd[4096]; if (getcwd(cwd, sizeof cwd)) abs = std::string(cwd) + "/" + path; }
+         std::string entry = "{\"class\": \"" + json_escape(wv.cls) + "\", \"detail\": \"" + json_escape(wv.detail.substr(0, 400)) + "\", \"replay\": \"" + json_escape(abs) + "\", \"ops\": 0}";
+         if (const Known* k = match_known(known, sc.id(), wv.cls)) {
+            rep.known_lines.push_back(std::string("KNOWN-FINDING: property=") + sc.id() + " " + k->what + " [" + wv.cls + "] replay=" + abs);
+            rep.known_json.push_back(entry);
+         } else {
+            rep.violation_lines.push_back(std::string("VIOLATION property=") + sc.id() + " replay=" + abs);
+            rep.violation_json.push_back(entry);
+            std::printf("  class %s\n    %s\n", wv.cls.c_str(), wv.detail.c_str());
+         }
+      }
    }
 
    // A candidate that cannot be reproduced is not believed.  It voids the whole check only when nothing else was
